@@ -62,6 +62,9 @@ def main(argv):
     groups.setdefault(("inclusive-end-on-newline:word-end-backward", "lines"), (
         0, "text='x\\n\\n' cursor=2 keys='> gE' -> text='    x\\n    \\n    ' cursor=9; indent operator changed a line outside "
            "the motion's line range (also gq ge / gq gE from an empty line)", 1))
+    groups.setdefault(("inclusive-end-on-newline:last-non-blank", "lines"), (
+        0, "text='\\na\\n' cursor=2 (after 'a') keys='> g_' -> text='\\n    a\\n    ' cursor=5; indent operator changed a line "
+           "outside the motion's line range (cursor after the last character of the line; also < and gq)", 1))
     findings = []
     for i, ((fam, og), (_, what, n)) in enumerate(sorted(groups.items()), 1):
         findings.append({"id": "C08-F%d" % i, "property": "C08", "status": "known",
